@@ -269,7 +269,7 @@ func (s *c06Scn) settle() bool {
 	if !e.Quiesce(e.S.Ctx) {
 		return false
 	}
-	return conc.WaitUntil(func() bool { return e.ErrCallbacks() >= e.SentinelsSent() }, c06Watchdog)
+	return conc.WaitUntil(func() bool { return e.SentinelCallbacks() >= e.SentinelsSent() }, c06Watchdog)
 }
 
 func (s *c06Scn) wd(ok bool, what string) bool {
@@ -661,7 +661,12 @@ func c06Stress(w *fw.Worker, i int, r *fw.Rand) {
 					return
 				default:
 				}
-				e.Report(ctx, 20+rp, rp%e.Opts.NSrc, s.validLayer(rr), rr.Chance(60))
+				l := s.validLayer(rr)
+				if !delayed && rr.Chance(15) {
+					// an update that Verify rejects: no version, one error event
+					l = e.RandLayer(rr, 100, 0)
+				}
+				e.Report(ctx, 20+rp, rp%e.Opts.NSrc, l, rr.Chance(60))
 				time.Sleep(time.Duration(rr.Intn(300)) * time.Microsecond)
 			}
 		}(rp, rr)
